@@ -13,7 +13,8 @@ them is used by the model of the code (`Model/C15.lean`): they are what the mode
   `selC` / `flipWalk` — the rule the code implements for all accepted key sets (overlaps included);
   `ExtraAt` / `rejectsB` — improper nesting (what `make_include_exclude_tree` rejects); `disjointB`, `agreeOnB`,
   `wfV`, `allPathsV` — decided forms, run by the driver.
-* Part 3: `groupsOf`, `groupsOfG` — the reference partitions.  No imports except the model.
+* Part 3: `groupsOf`, `groupsOfG` — the reference partitions.  `DType`, `inMro`, `abcHas`, `issubclass` — the type
+  of the data and what `isinstance` means for it.  No imports except the model.
 
 Every definition here is executed by `drivers/C15.lean` on the generated cases and compared with the
 implementation or with an independent Python reference (`harness/props/c15.py`, `compare`). -/
@@ -398,5 +399,59 @@ def Item.WF (n : Nat) (v : Item) : Prop := WFV n (.dict (v.context n))
 /-- the reference partition for any key type -/
 def groupsOfG {K : Type} [DecidableEq K] (key : Item → K) (xs : List Item) : List (K × List Item) :=
   ((xs.map key).eraseDups).map (fun k => (k, xs.filter (fun v => key v = k)))
+
+/-! ## the type of the data (what a class selector tests) -/
+
+/-- `type(data)`: the concrete class of the data of a value -/
+inductive DType where
+  | noneType | bool | int | str | tuple
+  | other (t : PyType)
+  deriving DecidableEq, Repr
+
+def Data.dtype : Data → DType
+  | .none => .noneType
+  | .bool _ => .bool
+  | .int _ => .int
+  | .str _ => .str
+  | .tuple => .tuple
+  | .other t => .other t
+
+/-- `cls in type(data).__mro__`: inheritance alone (`bool < int`, `MyInt < int`, `Str < str`, `UserSub < User`,
+a named tuple `< tuple`, everything `< object`) -/
+def inMro : DType → PyClass → Bool
+  | _, .object => true
+  | .noneType, .noneType => true
+  | .bool, .bool => true
+  | .bool, .int => true
+  | .int, .int => true
+  | .str, .str => true
+  | .tuple, .tuple => true
+  | .other .float, .float => true
+  | .other .dict, .dict => true
+  | .other .list, .list => true
+  | .other .intSub, .intSub => true
+  | .other .intSub, .int => true
+  | .other .strSub, .strSub => true
+  | .other .strSub, .str => true
+  | .other .user, .user => true
+  | .other .userSub, .userSub => true
+  | .other .userSub, .user => true
+  | .other .namedTuple, .tuple => true
+  | _, _ => false
+
+/-- the concrete classes an abstract base class recognises without inheritance: `numbers.Number` (`int`, `float`
+registered; `Fraction` through `Rational`), `numbers.Integral` (`int`), `collections.abc.Mapping` (`dict`),
+`Sequence` (`str`, `tuple`, `list`), `Hashable` (`__subclasshook__`: a class with a `__hash__`: not `dict`, `list`);
+subclasses of a recognised class are recognised -/
+def abcHas : PyClass → DType → Bool
+  | .number, t => t = .bool || t = .int || t = .other .intSub || t = .other .float || t = .other .fraction
+  | .integral, t => t = .bool || t = .int || t = .other .intSub
+  | .mapping, t => t = .other .dict
+  | .sequence, t => t = .str || t = .other .strSub || t = .tuple || t = .other .namedTuple || t = .other .list
+  | .hashable, t => !(t = .other .dict || t = .other .list)
+  | _, _ => false
+
+/-- `issubclass(type(data), cls)`: by inheritance or through an abstract base class -/
+def issubclass (t : DType) (c : PyClass) : Bool := inMro t c || abcHas c t
 
 end Lena.C15
